@@ -12,10 +12,10 @@ def sh(cmd, cwd, timeout=900, env=None):
     return p.returncode, p.stdout
 
 def harvest(pid):
-    wt = "/tmp/wt_%s" % pid
+    wt = "/tmp/%s%s" % (os.environ.get("WT_PREFIX", "wt_"), pid)
     sh("git checkout -- pymemcache", wt)
     notes = open(os.path.join(wt, "NOTES.md")).read() if os.path.exists(os.path.join(wt, "NOTES.md")) else ""
-    for n in (1, 2, 3, 4):
+    for n in (1, 2, 3, 4, 5, 6):
         diff = os.path.join(wt, "CHANGE%d.diff" % n)
         demo = os.path.join(wt, "demo%d.py" % n)
         if not (os.path.exists(diff) and os.path.exists(demo)):
@@ -47,7 +47,7 @@ def harvest(pid):
         print(pid, n, "KEEP" if ok else "REJECT", rec)
         if not ok:
             continue
-        dst = os.path.join(HERE, "seeded", "%s-%d" % (pid, n))
+        dst = os.path.join(HERE, "seeded", "%s-%s%d" % (pid, os.environ.get("SEED_ROUND", ""), n))
         os.makedirs(dst, exist_ok=True)
         shutil.copy(diff, os.path.join(dst, "patch.diff"))
         shutil.copy(demo, os.path.join(dst, "demo.py"))
